@@ -76,4 +76,142 @@ theorem encodeNormalLoop_eq_encodeNat (a : Acc) (tbl : Option Tbl) (f : Nat) (v 
           rw [ih _ _ hq]
         · simp [h2]
 
+/-! ## arcs, `Acc.next`, `livePos` -/
+
+theorem cn_next_of_live {a : Acc} {v : Int} {c : Char} {j : Nat} (hc : nucIdx c = some j)
+    (hj : j ∈ a.live v) : a.next v c = some (a.ent v j) := by
+  have := live_ent_nonneg a v hj
+  simp [Acc.next, hc, this]
+
+theorem cn_next_some {a : Acc} {v : Int} {c : Char} {t : Int} (h : a.next v c = some t) :
+    ∃ j, nucIdx c = some j ∧ j ∈ a.live v ∧ t = a.ent v j := by
+  unfold Acc.next at h
+  cases hc : nucIdx c with
+  | none => simp [hc] at h
+  | some j =>
+    simp only [hc] at h
+    by_cases hge : a.ent v j ≥ 0
+    · simp only [hge, if_true, Option.some.injEq] at h
+      exact ⟨j, rfl, (mem_live_iff a v j).2 ⟨nucIdx_lt hc, hge⟩, h.symm⟩
+    · simp [hge] at h
+
+theorem cn_next_none {a : Acc} {v : Int} {c : Char} (h : a.next v c = none) {j : Nat}
+    (hc : nucIdx c = some j) : j ∉ a.live v := by
+  intro hj
+  rw [cn_next_of_live hc hj] at h
+  cases h
+
+theorem cn_livePos_of_live {a : Acc} {v : Int} {c : Char} {j : Nat} (hc : nucIdx c = some j)
+    (hj : j ∈ a.live v) : livePos a v c = some ((a.live v).idxOf j) := by
+  simp [livePos, hc, hj]
+
+theorem cn_livePos_of_not_live {a : Acc} {v : Int} {c : Char} {j : Nat} (hc : nucIdx c = some j)
+    (hj : j ∉ a.live v) : livePos a v c = none := by
+  simp [livePos, hc, hj]
+
+theorem cn_livePos_foreign {a : Acc} {v : Int} {c : Char} (hc : nucIdx c = none) :
+    livePos a v c = none := by
+  simp [livePos, hc]
+
+theorem cn_live_eq_singleton {a : Acc} {v : Int} (h : (a.live v).length = 1) :
+    a.live v = [(a.live v).getD 0 0] := by
+  match hl : a.live v, h with
+  | [x], _ => rfl
+
+/-! ## Horner on decimal strings -/
+
+theorem cn_hornerStr_nil : hornerStr [] = [0] := rfl
+
+theorem cn_hornerStr_cons (dn : Nat × Nat) (rest : List (Nat × Nat)) :
+    hornerStr (dn :: rest) =
+      calculusAddition (calculusMultiplication (hornerStr rest) dn.1) dn.2 := by
+  simp [hornerStr, List.foldl_append]
+
+/-! ## `decodeWalk` -/
+
+theorem cn_decodeWalk_walk (a : Acc) (tbl : Option Tbl) : ∀ (s : List Char) (v : Int),
+    isWalk a v s = true → ∃ saved, decodeWalk a tbl v s = .ok saved ∧
+      (hornerStr saved).Canonical ∧ (hornerStr saved).toNat = walkValueD a tbl v s := by
+  intro s
+  induction s with
+  | nil =>
+    intro v _
+    exact ⟨[], rfl, Dec.canonical_zero, rfl⟩
+  | cons c s ih =>
+    intro v hw
+    unfold isWalk at hw
+    cases hn : a.next v c with
+    | none => simp [hn] at hw
+    | some t =>
+      simp only [hn] at hw
+      obtain ⟨j, hc, hj, rfl⟩ := cn_next_some hn
+      obtain ⟨saved, hs, hcan, hval⟩ := ih _ hw
+      have hjd : (nucIdx c).getD 0 = j := by simp [hc]
+      have h4 := live_length_le_four a v
+      unfold decodeWalk walkValueD
+      simp only [hjd, Acc.outDeg]
+      by_cases h1 : (a.live v).length > 1
+      · simp only [h1, if_true, cn_livePos_of_live hc hj, hs]
+        refine ⟨_, rfl, ?_⟩
+        rw [cn_hornerStr_cons]
+        have hd : arcDigit a tbl v j < (a.live v).length := arcDigit_lt a tbl v hj
+        obtain ⟨m1, m2⟩ := C15_mul (hornerStr saved) (a.live v).length hcan (by omega)
+        obtain ⟨a1, a2⟩ := C15_add _ (posToDigit tbl v (a.live v) ((a.live v).idxOf j)) m1
+          (by unfold arcDigit at hd; omega)
+        refine ⟨a1, ?_⟩
+        rw [a2, m2, hval]
+        simp only [arcDigit]
+        rw [Nat.mul_comm, Nat.add_comm]
+      · have hpos : 0 < (a.live v).length := List.length_pos_of_mem hj
+        have h1' : (a.live v).length = 1 := by omega
+        have hsing := cn_live_eq_singleton h1'
+        have hjeq : (a.live v).getD 0 0 = j := by
+          rw [hsing] at hj
+          exact (List.mem_singleton.1 hj).symm
+        simp only [h1', if_true, hjeq, nucChar_nucIdx hc]
+        exact ⟨saved, hs, hcan, hval⟩
+
+theorem cn_decodeWalk_not_walk (a : Acc) (tbl : Option Tbl) : ∀ (s : List Char) (v : Int),
+    isWalk a v s = false → decodeWalk a tbl v s = .error .valueError := by
+  intro s
+  induction s with
+  | nil => intro v h; simp [isWalk] at h
+  | cons c s ih =>
+    intro v hw
+    unfold isWalk at hw
+    unfold decodeWalk
+    cases hn : a.next v c with
+    | none =>
+      have hlp : livePos a v c = none := by
+        cases hc : nucIdx c with
+        | none => exact cn_livePos_foreign hc
+        | some j => exact cn_livePos_of_not_live hc (cn_next_none hn hc)
+      by_cases h1 : (a.live v).length > 1
+      · simp [h1, hlp]
+      · simp only [h1, if_false]
+        by_cases h1' : (a.live v).length = 1
+        · simp only [h1', if_true]
+          have hsing := cn_live_eq_singleton h1'
+          have hj0 : (a.live v).getD 0 0 ∈ a.live v := by
+            rw [hsing]; simp
+          have hne : c ≠ nucChar ((a.live v).getD 0 0) := by
+            intro he
+            have hc : nucIdx c = some ((a.live v).getD 0 0) := by
+              rw [he]; exact nucIdx_nucChar _ (live_lt_four a v hj0)
+            exact cn_next_none hn hc hj0
+          rw [if_neg hne]
+        · simp [h1']
+    | some t =>
+      simp only [hn] at hw
+      obtain ⟨j, hc, hj, rfl⟩ := cn_next_some hn
+      have hjd : (nucIdx c).getD 0 = j := by simp [hc]
+      have hrec := ih _ hw
+      simp only [hjd, hrec, cn_livePos_of_live hc hj]
+      by_cases h1 : (a.live v).length > 1
+      · simp [h1, Except.map]
+      · simp only [h1, if_false]
+        by_cases h1' : (a.live v).length = 1
+        · simp [h1']
+        · simp [h1']
+
 end Dsw
